@@ -46,11 +46,30 @@ type bfResult struct {
 	ops       []string // file write/sync calls observed while the batch was processed
 	outcome   string
 	err       error // harness problem
+	split     bool  // the commits were not processed as ONE commit batch: the run does not count
 }
 
 var errInjected = errors.New("injected file-system fault")
 
-func runBatchFault(dir string, c bfCase) (res bfResult) {
+// runBatchFault runs the case; a run in which the commit worker did not process the commits
+// as one batch (which the queue handshake is meant to exclude) is repeated.
+func runBatchFault(dir string, c bfCase) bfResult {
+	for attempt := 0; ; attempt++ {
+		res := runBatchFaultOnce(dir, c)
+		if !res.split {
+			return res
+		}
+		splitRuns++
+		if attempt == 4 {
+			res.err = errors.New("the commits could not be forced into one commit batch in 5 attempts")
+			return res
+		}
+	}
+}
+
+var splitRuns int64
+
+func runBatchFaultOnce(dir string, c bfCase) (res bfResult) {
 	_ = os.RemoveAll(dir)
 	if err := os.MkdirAll(dir, 0o755); err != nil {
 		res.err = err
@@ -100,9 +119,13 @@ func runBatchFault(dir string, c bfCase) (res bfResult) {
 	var hold atomic.Bool
 	held := make(chan struct{}, 1)
 	release := make(chan struct{})
+	var batches atomic.Int32 // commit batches acknowledged while the fault window is open
 	h.OnPoint = func(name string) {
 		if name == "db.commit.lsmApplied" && armed.Load() {
 			applied.Store(true)
+		}
+		if name == "db.commit.beforeAck" && armed.Load() {
+			batches.Add(1)
 		}
 		if name == "db.commit.beforeAck" && hold.CompareAndSwap(true, false) {
 			held <- struct{}{}
@@ -158,7 +181,9 @@ func runBatchFault(dir string, c bfCase) (res bfResult) {
 			x.done <- x.t.Commit()
 		}(x)
 		deadline := time.Now().Add(20 * time.Second)
-		for db.VerifCommitQueueLen() != int64(i+1) {
+		// queued AND its wake-up token published: only then does the worker's drain loop
+		// (tryAcquireItem) pick it up together with the others
+		for db.VerifCommitQueueLen() != int64(i+1) || db.VerifCommitQueueItems() != i+1 {
 			if time.Now().After(deadline) {
 				res.err = fmt.Errorf("request %d was not queued", i)
 				close(release)
@@ -182,6 +207,10 @@ func runBatchFault(dir string, c bfCase) (res bfResult) {
 		}
 	}
 	armed.Store(false)
+	if batches.Load() != 1 {
+		res.split = true // never judged: the premise "one commit batch" does not hold for this run
+		return
+	}
 	var oc []string
 	firstFailed := 0
 	for i, x := range txs {
@@ -285,6 +314,7 @@ func batchFaultShapes(quick bool) []bfCase {
 func runBatchFaultFamily(r *vr.Run, sh vr.ShardInfo, p *vr.Partial, base string) {
 	reported := map[string]bool{}
 	item := 0
+	defer func() { p.Add("batch_fault_runs_repeated_because_batch_split", splitRuns) }()
 	for _, shape := range batchFaultShapes(r.Quick()) {
 		item++
 		if !sh.Owns(item) {
@@ -312,6 +342,11 @@ func runBatchFaultFamily(r *vr.Run, sh vr.ShardInfo, p *vr.Partial, base string)
 			}
 			p.Add("histories", 1)
 			p.Add("batch_fault_cases", 1)
+			if k == 0 {
+				p.Add("batch_fault_free_runs", 1)
+			} else if k <= len(res.ops) {
+				p.Add("batch_fault_injected"+res.ops[k-1][strings.IndexByte(res.ops[k-1], '@'):], 1)
+			}
 			p.Add("verdict:batch:"+res.outcome, 1)
 			p.Mark("outcomes", "batchfault "+strings.Join(c.Sizes, "")+fmt.Sprint(c.Sync, k)+res.outcome)
 			if k == 1 {
@@ -324,14 +359,16 @@ func runBatchFaultFamily(r *vr.Run, sh vr.ShardInfo, p *vr.Partial, base string)
 				p.Viol(res.sig, "", "")
 				continue
 			}
-			ok := true
-			for rep := 0; rep < 3 && ok; rep++ {
-				again := runBatchFault(base+"/bf", c)
-				ok = again.err == nil && again.sig == res.sig
+			// confirm from scratch: at least 2 of 3 fresh re-runs must show the identical signature
+			same := 0
+			for rep := 0; rep < 3; rep++ {
+				if again := runBatchFault(base+"/bf", c); again.err == nil && again.sig == res.sig {
+					same++
+				}
 			}
-			if !ok {
-				p.Add("unconfirmed_findings", 1)
-				p.Notes = append(p.Notes, fmt.Sprintf("batch-fault finding %q (%s) did not reproduce: %s", res.sig, c, res.desc))
+			if same < 2 {
+				p.Add("nondeterministic_findings_dropped", 1)
+				p.Notes = append(p.Notes, fmt.Sprintf("batch-fault finding %q (%s) reproduced in only %d of 3 fresh re-runs and was dropped: %s", res.sig, c, same, res.desc))
 				continue
 			}
 			reported[res.sig] = true
